@@ -1197,11 +1197,13 @@ _KINDS = {'never', 'int', 'bool', 'str', 'bytes', 'unit', 'const', 'named', 'fn'
 
 class Program:
     def __init__(self, facts):
+        known = load_known_functions()
+        self.renames = detect_renames(facts, known, load_known_signatures())
+        facts = apply_renames(facts, self.renames)
         self.facts = facts
         self.meta = facts['meta']
         self.bodies = {}
         raw_by_path = {r['path']: r for r in facts['bodies']}
-        known = load_known_functions()
         raw_by_path, spliced = expand_combinators(raw_by_path)
         merged, used = inline_helpers(raw_by_path, known)
         self.inlined_helpers = sorted(used)
@@ -1801,6 +1803,65 @@ def load_known_functions():
             return set(x.strip() for x in f if x.strip())
     except OSError:
         return None
+
+
+def load_known_signatures():
+    p = _os.path.join(_os.path.dirname(_os.path.abspath(__file__)), 'known_signatures.json')
+    try:
+        with open(p) as f:
+            return json.load(f)
+    except (OSError, ValueError):
+        return {}
+
+
+def detect_renames(facts, known, sigs):
+    """{current path: pinned path} for functions that were renamed or moved: a pinned function that no longer
+    exists and exactly one new function with the same signature in the same impl/module (or with the same name
+    in another module)"""
+    if not known or not sigs:
+        return {}
+    cur = {}
+    for b in facts['bodies']:
+        if b.get('kind') in ('Fn', 'AssocFn'):
+            n = b['arg_count']
+            cur[b['path']] = {'args': [l['ty'] for l in b['locals'][1:1 + n]], 'ret': b['locals'][0]['ty'],
+                              'callees': set((blk['term'].get('func', {}).get('fn', {}) or {}).get('path', '') for blk in b['blocks'] if blk['term'] and blk['term']['k'] == 'call') - {''}}
+    missing = [p2 for p2 in sigs if p2 not in cur and not p2.startswith('<')]
+    fresh = [q for q in cur if q not in known and not q.startswith('<')]
+    out = {}
+    taken = set()
+    for p2 in sorted(missing):
+        par, nm = p2.rsplit('::', 1) if '::' in p2 else ('', p2)
+        def same_sig(q):
+            return cur[q]['args'] == sigs[p2]['args'] and cur[q]['ret'] == sigs[p2]['ret']
+
+        def similarity(q):
+            a, b2 = cur[q]['callees'], set(sigs[p2].get('callees', []))
+            return len(a & b2) / float(len(a | b2)) if (a | b2) else 1.0
+        same_parent = [q for q in fresh if q not in taken and same_sig(q) and (q.rsplit('::', 1)[0] if '::' in q else '') == par]
+        same_name = [q for q in fresh if q not in taken and same_sig(q) and q.rsplit('::', 1)[-1] == nm]
+        cand = same_parent if len(same_parent) == 1 else (same_name if len(same_name) == 1 and not same_parent else [])
+        if not cand and len(same_parent) > 1:
+            # several new functions with this signature: take the one whose callee set is clearly the closest
+            ranked = sorted(same_parent, key=similarity, reverse=True)
+            if similarity(ranked[0]) >= 0.5 and similarity(ranked[0]) > similarity(ranked[1]):
+                cand = [ranked[0]]
+        if len(cand) == 1:
+            out[cand[0]] = p2
+            taken.add(cand[0])
+    return out
+
+
+def apply_renames(facts, ren):
+    """rewrite every occurrence of a renamed path (bodies, call targets, closures nested under it) in the facts"""
+    if not ren:
+        return facts
+    txt = json.dumps(facts)
+    for q, p2 in sorted(ren.items(), key=lambda kv: -len(kv[0])):
+        qe = json.dumps(q)[1:-1]
+        pe = json.dumps(p2)[1:-1]
+        txt = re.sub(re.escape(qe) + r'(?![A-Za-z0-9_])', lambda m, pe=pe: pe, txt)
+    return json.loads(txt)
 
 
 def _call_target_path(term):
